@@ -39,7 +39,7 @@ def state_bytes(st):
 def make_program(seed, idx):
     for attempt in range(50):
         rng = rng_for(seed, "c03-prog", idx, attempt)
-        desc = gen_program(rng, n_units=(3, 11), p_dist=0.7)
+        desc = gen_program(rng, n_units=(3, 11), p_dist=0.7, p_user_lp=0.3)
         if sane(desc):
             return desc, rng
     raise RuntimeError
@@ -203,7 +203,11 @@ def case_liesel(case, res):
             lp = iface.log_prob(out)
             msum = [n for n in A.nodes if n.role == "_model_log_prob"][0]
             res.mon("log_prob_equals_model")
-            if not np.allclose(float(lp), float(expected[msum.sid]), rtol=1e-5, atol=1e-4):
+            if lp is None:
+                res.violation("interface-log-prob-none", "interface.log_prob(state) returned None although the model's "
+                              f"log-probability at those values is {float(expected[msum.sid])} "
+                              f"(user-supplied log_prob node: {desc.get('user_log_prob') is not None})", w())
+            elif not np.allclose(float(lp), float(expected[msum.sid]), rtol=1e-5, atol=1e-4):
                 res.violation("log-prob", f"interface.log_prob = {float(lp)}, model log-prob at those values = "
                               f"{float(expected[msum.sid])}", w())
             states.append((out, new_in))
